@@ -52,6 +52,8 @@ func corpus() []string {
 		`{"a":1,"a":2}`, `{"${a}":1}`, `{"a":{"x":1,"x":2}}`, `[{"k":1,"k":1}]`,
 		`1.5`, `-1.5e3`, `1E+2`, `1e-2`, `0.0`, `10`, `1e0`, `0e0`, `-0.0e-0`, `123456789012345678901234567890`,
 		`0.1`, `1e308`, `1e-400`, `1e400`,
+		`9007199254740993`, `-9007199254740993`, `9223372036854775807`, `9223372036854775808`, `123456789012345678`, `18446744073709551615`, `4294967296`, `-2147483649`,
+		`{"n":9007199254740993,"m":[123456789012345678]}`, `1.000000000000000000000001`, `12345678901234567890.123456789`,
 		" \t\r\n{ \"a\" : [ 1 , 2 ] } \r\n", "[\n1\n,\n2\n]",
 		`{"//":"c","a":1}`,
 		`{"a":"b","c":{"d":["e",{"f":null}]}}`,
